@@ -12,7 +12,7 @@
 From Coq Require Import List ZArith.
 From Coq Require Import Reals.
 From Flocq Require Import IEEE754.Binary IEEE754.Bits.
-From RtoscV Require Import Auto.F32 Auto.AutoModel Auto.AutoMapModel Auto.AutoProofs Auto.AutoMapProofs Auto.AutoRemapProofs Auto.FloatOrder Auto.AutoMonoProofs Auto.AutoCpProofs Auto.AutoDefaultProofs Auto.AutoRegress Auto.AutoMapRegress.
+From RtoscV Require Import Auto.F32 Auto.AutoModel Auto.AutoMapModel Auto.AutoProofs Auto.AutoMapProofs Auto.AutoRemapProofs Auto.FloatOrder Auto.AutoMonoProofs Auto.AutoCpProofs Auto.AutoDefaultProofs Auto.AutoLogProofs Auto.AutoRegress Auto.AutoMapRegress.
 Import ListNotations.
 Local Open Scope Z_scope.
 
@@ -276,3 +276,37 @@ Theorem C19_default_points_inexact_refuted :
   bits_of_b32 (map_cp1 c r) = 1036831952 /\ bits_of_b32 (map_cp3 c r) = 1060320051 /\
   bits_of_b32 (clamp (lin f32_0 (map_cp1 c r) (map_cp3 c r)) mn mx) = 1036831952.
 Proof. exact default_points_inexact_witness. Qed.
+
+(* ---- stage 2: log-scale parameters under oracle hypotheses -------------------------------- *)
+(* logf / expf are libm's: arbitrary functions here, constrained only by
+   [exp_mono], [log_mono] and [roundtrip ... eps] (Auto/AutoLogProofs.v; sampled on
+   the real libm by the 'orc' stream of every run).  A log-scale parameter with
+   declared bounds 0 < min <= max receives a value in [min*(1-eps), max*(1+eps)] -
+   for every slot value, gain and offset: the clamp acts in the log domain *)
+Theorem C19_log_in_range : forall (logf_o expf_o : f32 -> f32) (eps : R),
+  exp_mono expf_o -> log_mono logf_o -> roundtrip logf_o expf_o eps ->
+  forall s v mn mx,
+  used s = true -> s_type s = ch_f -> s_scale s = 1 ->
+  finite32 mn -> finite32 mx -> (0 < val mn)%R -> (val mn <= val mx)%R ->
+  s_min s = logf_o mn -> s_max s = logf_o mx ->
+  exists o, sub_output expf_o s v = [MsgF (s_path s) o] /\ finite32 o /\
+            (val mn * (1 - eps) <= val o <= val mx * (1 + eps))%R.
+Proof. exact log_in_range. Qed.
+
+(* and its value never decreases when the (finite) slot value increases, for every
+   gain that is not negative *)
+Theorem C19_log_monotone : forall (expf_o : f32 -> f32), exp_mono expf_o ->
+  forall s0 v1 v2,
+  let s := remap s0 in
+  used s0 = true -> s_type s0 = ch_f -> s_scale s0 = 1 ->
+  finite32 (s_min s0) -> finite32 (s_max s0) -> (val (s_min s0) <= val (s_max s0))%R ->
+  nn32 (gain s0) ->
+  finite32 v1 -> finite32 v2 -> (val v1 <= val v2)%R ->
+  exists o1 o2, sub_output expf_o s v1 = [MsgF (s_path s) o1] /\
+                sub_output expf_o s v2 = [MsgF (s_path s) o2] /\ fle o1 o2.
+Proof. exact log_monotone. Qed.
+
+(* the oracle hypotheses are satisfiable *)
+Theorem C19_log_oracles_consistent :
+  exp_mono (fun x => x) /\ log_mono (fun x => x) /\ roundtrip (fun x => x) (fun x => x) 0.
+Proof. exact oracle_hypotheses_consistent. Qed.
